@@ -72,6 +72,8 @@ func (e *Exec) tm() *tmInfo {
 // family: which shared field does the address operand of an atomic op denote?
 func atomicFamily(v ssa.Value) (fam string, idx ssa.Value) {
 	switch x := v.(type) {
+	case *ssa.Global:
+		return x.Name(), nil // a package-level counter (clockSeq)
 	case *ssa.FieldAddr:
 		stt := x.X.Type().Underlying().(*types.Pointer).Elem().Underlying().(*types.Struct)
 		return stt.Field(x.Field).Name(), nil
